@@ -9,7 +9,7 @@ contracts also run on the moves the Monte-Carlo engine makes (embedded runs).
 """
 import numpy as np
 
-from .. import cover, gen, monitors
+from .. import core, cover, gen, monitors
 
 LEVEL = 'exploration'
 JOBS = {'quick': 2, 'thorough': 16}
@@ -18,7 +18,8 @@ REQUIRED_CLASSES = ('move:tree', 'move:cyclic', 'displ:1', 'displ:2', 'displ:3',
                     'table:agrees', 'table:disagrees', 'table:all-bonds-one-length', 'call:displacement-given-atom-omitted', 'embedded:mc-moves', 'graph:forest',
                     'sequence:same-table-object', 'sequence:table-lengths-edited-in-place',
                     'sequence:table-graph-edited-in-place', 'sequence:positions-edited-in-place',
-                    'sequence:other-table-same-size', 'sequence:refused-call-before')
+                    'sequence:other-table-same-size', 'sequence:refused-call-before', 'table:other-length-unit',
+                    'settings:warnings-as-errors', 'settings:fp-raise', 'settings:fp-ignore')
 RULE = ('enumerated part: every labelled tree on n<=Nmax vertices x every moved atom (Nmax = 7 thorough; quick: 6 '
         'plus every 10th tree on 7); random part: trees, cyclic graphs and forests up to 60 atoms. A case is '
         'non-trivial when the moved atom has at least one neighbour that has to be re-positioned; distinct = '
@@ -81,8 +82,14 @@ def bonds_table(rng, n, edges, pos, agree, shuffle=True):
     same = None if agree or rng.random() < 0.6 else float(rng.choice([0.47, 0.35, 0.1, 1.0]))   # one length for every bond (ideal CG model)
     if same is not None:
         _flags.append('table:all-bonds-one-length')
+    # the table in another length unit than the coordinates (Angstrom against nm, or the other way round)
+    unit = None if agree or same is not None or rng.random() < 0.7 else float(rng.choice([10.0, 0.1]))
+    if unit is not None:
+        _flags.append('table:other-length-unit')
     for a, b in edges:
         length = float(np.linalg.norm(pos[a] - pos[b])) if agree else (same if same is not None else float(rng.uniform(0.05, 0.6)))
+        if unit is not None:
+            length = float(np.linalg.norm(pos[a] - pos[b])) * unit
         info[a].append((b, length))
         info[b].append((a, length))
     for i in info:
@@ -124,7 +131,14 @@ def one_move(ctx, rng, n, edges, atom, kind, key=None, dcls=None):
     displ = gen_displ(rng, dcls, pos, info, atom)
     sigma = float(10.0 ** rng.uniform(-3, 1))
     np.random.seed(int(rng.integers(0, 2**31 - 1)))
-    move = gaddlemaps.move_mol_atom
+    real_move = gaddlemaps.move_mol_atom
+    caller = core.next_settings(ctx)
+
+    def move(*a, **k):
+        # under the warning / floating-point settings a caller may have chosen; the unchanged function is silent and is
+        # not expected to be refused because of them
+        with core.settings(caller):
+            return real_move(*a, **k)
     try:
         if displ is None:
             out = move(pos, info, atom_index=atom, sigma_scale=sigma)
